@@ -95,6 +95,32 @@ const EXOTIC_NAMES: [&str; 21] = [
     "a,b",
 ];
 
+/// characters for generated names: printable ASCII, Latin-1 (incl. the no-break space), Unicode spaces
+/// that are not the blank or the tab, a byte-order mark, CJK, a combining mark and an astral character
+const NAME_CHARS: [char; 58] = [
+    'a', 'b', 'x', 'Z', '0', '7', '_', '.', '$', ':', '[', ']', '(', ')', '{', '}', '<', '>', '=', '+', '-', '*', '/', '%',
+    '&', '^', '~', '!', '?', ',', '\'', '"', '`', '@', '#', ';', ' ', '\t', '|', '\\', 'é', 'ß', 'µ', '\u{a0}', '\u{2003}',
+    '\u{3000}', '\u{feff}', '\u{c}', '\u{b}', '名', '前', '\u{301}', '😀', 'Ω', '¬', '÷', '\u{85}', '\u{2028}',
+];
+
+/// A name of 1-8 characters drawn from `NAME_CHARS` without the characters in `forbidden`, followed by
+/// `suffix` (which makes it unique). Names are generated, not picked from a list.
+pub fn random_name(t: &mut Tape, forbidden: &[char], suffix: &str) -> String {
+    let n = 1 + t.below(8);
+    let mut s = String::new();
+    for _ in 0..n {
+        let c = NAME_CHARS[t.below(NAME_CHARS.len() as u32) as usize];
+        if !forbidden.contains(&c) {
+            s.push(c);
+        }
+    }
+    if s.is_empty() {
+        s.push('n');
+    }
+    s.push_str(suffix);
+    s
+}
+
 impl ExprGen {
     pub fn new(cfg: GenCfg) -> Self {
         ExprGen { cfg, bvs: vec![], arrs: vec![], symbols: vec![], case_widths: vec![], steps_done: 0 }
@@ -102,6 +128,10 @@ impl ExprGen {
 
     pub fn name(&self, t: &mut Tape, idx: usize) -> String {
         if self.cfg.exotic_names && t.chance(128) {
+            if t.chance(96) {
+                // SMT-LIB cannot express `|` and `\` inside a symbol
+                return random_name(t, &['|', '\\'], &idx.to_string());
+            }
             let base = EXOTIC_NAMES[t.below(EXOTIC_NAMES.len() as u32) as usize];
             format!("{}{}", base, idx)
         } else {
